@@ -152,10 +152,11 @@ Theorem time_of_first_obs_roundtrip : forall t s, first_ok t ->
 Proof. exact first_obs_ok. Qed.
 Print Assumptions time_of_first_obs_roundtrip.
 
-(* the epoch line through its columns: two-digit year resolved with the century of TIME OF FIRST OBS, sub-second epoch,
+(* the epoch line through its columns: two-digit year resolved by the RINEX 2.11 rule (80-99 -> 19yy, 00-79 -> 20yy; every year
+   1980..2079, no relation to the year of TIME OF FIRST OBS required), sub-second epoch,
    flag, number of satellites, up to 12 satellites (blank tens digit -> 0), optional F12.9 clock offset *)
-Theorem epoch_roundtrip_v2 : forall rate Y fmo fd fh fmi fsec, (1000 <= Y < 10000)%Z -> forall t nsat ids s c,
-  inv2_meta Y fmo fd fh fmi fsec s -> epoch_t_wf t -> (ep_y t / 100 = Y / 100)%Z ->
+Theorem epoch_roundtrip_v2 : forall rate Y fmo fd fh fmi fsec t nsat ids s c,
+  inv2_meta Y fmo fd fh fmi fsec s -> epoch_t_wf t -> (1980 <= ep_y t < 2080)%Z ->
   match ep_clk t with None => True | Some v => fits_F 12 9 v end -> fits_int 3 nsat ->
   ids <> [] -> List.length ids <= 12 -> Forall sat2_id_ok ids ->
   v2_line spec_q rate G2.obs_table (epoch_first_line_v2 t nsat ids) s c =
@@ -300,6 +301,16 @@ Proof.
   rewrite R. reflexivity.
 Qed.
 Print Assumptions blank_system_id_is_gps_partial.
+
+(* two-digit years over 1999/2000: the specification reads the record "00  1  1" after a first observation in 1999 as 2000-01-01;
+   the current code (century of TIME OF FIRST OBS) returns 1900-01-01 *)
+Theorem century_file_spec : times_of (model_v2 spec_q None witness_1999) = ["1999-12-31T23:59:30.0000000"; "2000-01-01T00:00:00.0000000"].
+Proof. exact century_spec. Qed.
+Print Assumptions century_file_spec.
+Theorem c11_century_from_first_obs_refuted :
+  times_of (model_v2 cent_q None witness_1999) = ["1999-12-31T23:59:30.0000000"; "1900-01-01T00:00:00.0000000"].
+Proof. exact century_refuted_l. Qed.
+Print Assumptions c11_century_from_first_obs_refuted.
 
 (* ---- non-vacuity *)
 Example wf_cell_ex : cell_wf {| cv := VNum (-353); clli := Some 4%Z; cssi := None |}.
